@@ -96,3 +96,12 @@ impl StatusConditionAsync {
         reply_receiver.await?
     }
 }
+
+#[cfg(dust_dds_verif)]
+impl StatusConditionAsync {
+    /// Verification hook: the entity this condition addresses (`get_entity` is not implemented).
+    #[doc(hidden)]
+    pub fn verif_entity(&self) -> &StatusConditionEntity {
+        &self.entity
+    }
+}
